@@ -194,9 +194,18 @@ def r04b(model: Model, rr: RuleResult):
         rr.ok("need_blanks = all_codepoints - direct_mapped_codepoints")
     else:
         rr.bad_shape(e, e.node, "need_blanks is not (all codepoints) minus (directly mapped codepoints)", construct="need_blanks")
-    uni = [st for st in ast.walk(e.node) if isinstance(st, ast.Assign) and norm(st.targets[0]) == "glyph.unicode"]
-    if uni and norm(uni[0].value) == "codepoint":
+    from ..dataflow import resolved as _r4b
+    uni = [st for st in ast.walk(e.node) if isinstance(st, ast.Assign) and len(st.targets) == 1 and isinstance(st.targets[0], ast.Attribute) and st.targets[0].attr == "unicode"]
+    okb = None
+    for st in uni:
+        made = _r4b(ecfg, ecfg.node_for(st), st.targets[0].value)  # the glyph whose unicode is set, through temporaries
+        if isinstance(made, ast.Call) and callee_tail(made) == "newGlyph" and len(made.args) == 1 and isinstance(made.args[0], ast.Call) \
+                and callee_tail(made.args[0]) == "glyph_name" and len(made.args[0].args) == 1:
+            okb = norm(made.args[0].args[0]) == norm(st.value)
+    if okb:
         rr.ok("each blank glyph maps its own codepoint")
+    elif okb is False:
+        rr.bad(e, e.node, "blank glyphs are not mapped from their codepoint", construct="blank glyph unicode")
     else:
         rr.bad_shape(e, e.node, "blank glyphs are not mapped from their codepoint", construct="blank glyph unicode")
     g = model.func("write_font", "_generate_color_font")
